@@ -8,9 +8,7 @@ LOG="$W/OUT/confirm.log"; : > "$LOG"
 DEMO=$(ls tests/demo_mutant*.rs 2>/dev/null | head -1)
 [ -n "$DEMO" ] || { echo "no demo test" >> "$LOG"; exit 2; }
 T=$(basename "$DEMO" .rs)
-cp "$DEMO" /tmp/.demo_$$.rs
-git stash -q -u 2>/dev/null; git checkout -q -- . ; git clean -fdq -e target -e OUT
-cp /tmp/.demo_$$.rs "$DEMO"; rm -f /tmp/.demo_$$.rs
+git checkout -q -- .      # drop tracked edits only; OUT/ and the demo are untracked and stay
 git apply OUT/patch.diff || { echo "PATCH DOES NOT APPLY" >> "$LOG"; exit 2; }
 echo "== demo with patch (expect failure)" >> "$LOG"
 cargo nextest run --offline --no-fail-fast --test "$T" 2>&1 | grep -E "Summary|FAIL|PASS|error" | head -20 >> "$LOG"
